@@ -2,6 +2,7 @@ import ZCV.Lemmas.Misc
 import ZCV.Lemmas.Include
 import ZCV.Lemmas.SlotsLoad
 import ZCV.Lemmas.SlotsEx
+import ZCV.Lemmas.HistoryEx
 namespace ZCV.Props.C13
 open ZCV ZCV.Cfg
 
@@ -135,5 +136,329 @@ theorem C13_model_schemaAfter_is_private_schema :
       r.schemaAfter.components = ["u".toList] ∧ r.schemaAfter.gettype "leak".toList = some (.concrete Ex.leak) := by
   obtain ⟨r, hr, hs⟩ := Ex.load_import_p
   exact ⟨r, hr, by rw [hs]; rfl, by rw [hs]; rfl⟩
+
+/-! ## FAITHFUL histories (ZCV/Model/History.lean): what a history with `%import` can change, exactly
+
+`runHistory` above feeds a load's whole private schema into the next load (see the REMARK).  ZConfig does not: the next
+load starts from the application's schema object, of which a load can only have written the implementer tables of the
+abstract types it holds (`AbstractType.addsubtype` on objects `createDerivedSchema` shares).  `runHistoryApp` threads
+exactly that (`appAfter` for a successful load, `appAfterLoad` in general: a load that fails – even inside a component
+that breaks off half-way – leaves the `addsubtype` calls it made before).  The theorems below hold for EVERY history:
+any texts, `%import` and `%include` anywhere, successful and failing loads, overrides, any datatypes. -/
+
+/-- **After one load, successful or not, the application's schema object is the schema it was with the load's
+    `addsubtype` calls applied** (`loadStop … .regs`: (concrete type name, key of the abstract type), in order) – nothing
+    else of the load's private schema (imported types, component marks) reaches it. -/
+theorem C13_load_changes_only_implementers (conv : Conv) (env : Env) (pkgs : Str → Pkg) (s : Schema) (q : LoadReq) :
+    appAfterLoad conv env pkgs s q = s.withImplementers (loadStop conv env pkgs s q.url q.lines q.specs).regs :=
+  appAfterLoad_eq conv env pkgs s q
+
+/-- … for a successful load that is `appAfter s r`, computed from the result alone -/
+theorem C13_appAfter_of_ok (conv : Conv) (env : Env) (pkgs : Str → Pkg) (s : Schema) (q : LoadReq) (r : LoadResult)
+    (h : load conv env pkgs s q.url q.lines q.specs = .ok r) :
+    appAfter s r = s.withImplementers (loadStop conv env pkgs s q.url q.lines q.specs).regs := by
+  rw [← appAfterLoad_ok conv env pkgs s q r h, appAfterLoad_eq]
+
+/-- **After a whole history** the application's schema object is the schema it was with every `addsubtype` call of the
+    history applied, in order. -/
+theorem C13_history_exact (conv : Conv) (env : Env) (pkgs : Str → Pkg) (s : Schema) (hist : List LoadReq) :
+    (runHistoryApp conv env pkgs s hist).2 = s.withImplementers (historyRegs conv env pkgs s hist) :=
+  runHistoryApp_schema conv env pkgs hist s
+
+/-- two entries of a type table that differ at most in the implementer table of an abstract type -/
+def SameButTable (p q : Str × TypeEntry) : Prop :=
+  q.1 = p.1 ∧
+    match p.2 with
+    | .concrete t => q.2 = .concrete t
+    | .abstract_ n _ => ∃ subs, q.2 = .abstract_ n subs
+
+theorem sameButTable_regEntries (regs : List (Str × Str)) (p : Str × TypeEntry) : SameButTable p (regEntries regs p) := by
+  obtain ⟨k, te⟩ := p
+  cases te with
+  | concrete t => rw [regEntries_concrete]; exact ⟨rfl, rfl⟩
+  | abstract_ n subs =>
+    obtain ⟨add, he, _⟩ := regEntries_abstract regs k n subs
+    rw [he]
+    exact ⟨rfl, _, rfl⟩
+
+/-- **A history changes nothing but implementer tables.**  For EVERY history the application's schema object afterwards
+    has the same top-level type (keys, sections, defaults, datatypes), the same handler, the same components, a type
+    table of the same length with the same names at the same places, every concrete type exactly as it was (children,
+    keys, defaults, key type, datatype), every abstract type still abstract under the same name; looked up by name:
+    the same concrete types and the same set of abstract type names. -/
+theorem C13_history_changes_only_implementers (conv : Conv) (env : Env) (pkgs : Str → Pkg) (s : Schema)
+    (hist : List LoadReq) :
+    let s' := (runHistoryApp conv env pkgs s hist).2
+    s'.top = s.top ∧ s'.handler = s.handler ∧ s'.components = s.components ∧
+      s'.types.map (·.1) = s.types.map (·.1) ∧
+      (∀ (i : Nat) p, s.types[i]? = some p → ∃ q, s'.types[i]? = some q ∧ SameButTable p q) ∧
+      (∀ x t, s'.gettype x = some (.concrete t) ↔ s.gettype x = some (.concrete t)) ∧
+      (∀ x, isAbstract s' x = isAbstract s x) := by
+  intro s'
+  have hs : s' = s.withImplementers (historyRegs conv env pkgs s hist) := runHistoryApp_schema conv env pkgs hist s
+  rw [hs]
+  refine ⟨withImplementers_top _ _, withImplementers_handler _ _, withImplementers_components _ _,
+    withImplementers_keys _ _, ?_, fun x t => gettype_concrete_withImplementers _ _ x t,
+    fun x => isAbstract_withImplementers _ _ x⟩
+  intro i p hp
+  rw [withImplementers_types, List.getElem?_map, hp]
+  exact ⟨_, rfl, sameButTable_regEntries _ p⟩
+
+/-- **Implementer tables only grow, and only by what imported components declare.**  For every history and every name
+    `x`: the implementers of `x` afterwards are the implementers before, followed by new names (each once); every new name
+    `c` was not listed, `x` is an abstract type of the schema, and `c` is a type defined, with `implements` naming `x`'s
+    key, by a component (`pkgs p = component …`) that some load of the history imported – read to its end
+    (`historyImports`) or up to where it broke off (`historyBroken`). -/
+theorem C13_implementers_only_grow (conv : Conv) (env : Env) (pkgs : Str → Pkg) (s : Schema) (hist : List LoadReq) (x : Str) :
+    ∃ add, Conf.implementers (runHistoryApp conv env pkgs s hist).2 x = Conf.implementers s x ++ add ∧ add.Nodup ∧
+      ∀ c ∈ add, c ∉ Conf.implementers s x ∧ isAbstract s x = true ∧
+        ∃ p ∈ historyImports conv env pkgs s hist ++ historyBroken conv env pkgs s hist,
+          ∃ url types impls, pkgs p = .component url types impls ∧ (c, lower x) ∈ impls ∧ c ∈ types.map (·.1) := by
+  rw [runHistoryApp_schema]
+  obtain ⟨add, he, h1, h2⟩ := implementers_withImplementers s (historyRegs conv env pkgs s hist) x
+  refine ⟨add, he, h2, ?_⟩
+  intro c hc
+  obtain ⟨hn, hm, ha⟩ := h1 c hc
+  obtain ⟨p, hp, url, types, impls, hpk, hi, ht⟩ := historyRegs_source conv env pkgs s hist _ hm
+  exact ⟨hn, ha, p, hp, url, types, impls, hpk, hi, ht⟩
+
+/-- … and membership exactly: a name is listed afterwards iff it was listed before or some load of the history made an
+    `addsubtype` call for it on this abstract type -/
+theorem C13_implementers_after_history (conv : Conv) (env : Env) (pkgs : Str → Pkg) (s : Schema) (hist : List LoadReq)
+    (x c : Str) :
+    c ∈ Conf.implementers (runHistoryApp conv env pkgs s hist).2 x ↔
+      c ∈ Conf.implementers s x ∨ (isAbstract s x = true ∧ (c, lower x) ∈ historyRegs conv env pkgs s hist) := by
+  rw [runHistoryApp_schema]
+  exact mem_implementers_withImplementers s _ x c
+
+/-- a call that would change the schema: an abstract type stored under the call's key does not list the name yet -/
+def CallLeaks (s : Schema) (ia : Str × Str) : Prop :=
+  ∃ n subs, (ia.2, TypeEntry.abstract_ n subs) ∈ s.types ∧ ia.1 ∉ subs
+
+/-- a component that declares (for a type it defines) an implementer of an abstract type of `s` which `s` does not list -/
+def PkgLeaks (s : Schema) : Pkg → Prop
+  | .component _ types impls => ∃ ia ∈ impls, ia.1 ∈ types.map (·.1) ∧ CallLeaks s ia
+  | _ => False
+
+theorem not_callLeaks_iff (s : Schema) (ia : Str × Str) : ¬ CallLeaks s ia ↔ regImpl s ia = s := by
+  rw [regImpl_eq_self_iff]
+  unfold CallLeaks
+  constructor
+  · intro h n subs hm
+    exact Classical.byContradiction fun hn => h ⟨n, subs, hm, hn⟩
+  · rintro h ⟨n, subs, hm, hn⟩
+    exact hn (h n subs hm)
+
+/-- **History independence, exactly** (every history): the schema object is unchanged IFF no load of the history made
+    an `addsubtype` call that adds something – a call for an abstract type of the application's schema with a name it did
+    not list. -/
+theorem C13_history_independent_iff_no_leak (conv : Conv) (env : Env) (pkgs : Str → Pkg) (s : Schema) (hist : List LoadReq) :
+    (runHistoryApp conv env pkgs s hist).2 = s ↔ ∀ ia ∈ historyRegs conv env pkgs s hist, ¬ CallLeaks s ia := by
+  rw [runHistoryApp_schema, withImplementers_eq_self_iff]
+  constructor
+  · intro h ia hia; exact (not_callLeaks_iff s ia).mpr (h ia hia)
+  · intro h ia hia; exact (not_callLeaks_iff s ia).mp (h ia hia)
+
+theorem pkgLeaks_iff (s : Schema) (pk : Pkg) : PkgLeaks s pk ↔ ∃ ia ∈ pkgRegs pk, CallLeaks s ia := by
+  cases pk with
+  | component url types impls =>
+    simp only [PkgLeaks, pkgRegs]
+    constructor
+    · rintro ⟨ia, hi, ht, hl⟩; exact ⟨ia, (mem_compRegs types impls ia).mpr ⟨hi, ht⟩, hl⟩
+    · rintro ⟨ia, hm, hl⟩
+      obtain ⟨hi, ht⟩ := (mem_compRegs types impls ia).mp hm
+      exact ⟨ia, hi, ht, hl⟩
+  | notImportable => simp [PkgLeaks, pkgRegs]
+  | notPackage => simp [PkgLeaks, pkgRegs]
+  | noComponent => simp [PkgLeaks, pkgRegs]
+  | illegalName => simp [PkgLeaks, pkgRegs]
+
+/-- **History independence in terms of the imported components** (every history in which no component broke off – in
+    particular every history of successful loads, `C13_all_ok_no_broken`): the schema object is unchanged IFF none of the
+    components some load imported declares an implementer, of one of the application schema's abstract types, that was not
+    already listed. -/
+theorem C13_history_independent_iff_no_leaking_import (conv : Conv) (env : Env) (pkgs : Str → Pkg) (s : Schema)
+    (hist : List LoadReq) (hb : historyBroken conv env pkgs s hist = []) :
+    (runHistoryApp conv env pkgs s hist).2 = s ↔ ∀ p ∈ historyImports conv env pkgs s hist, ¬ PkgLeaks s (pkgs p) := by
+  rw [C13_history_independent_iff_no_leak, historyRegs_complete conv env pkgs s hist hb]
+  constructor
+  · intro h p hp hl
+    obtain ⟨ia, hia, hleak⟩ := (pkgLeaks_iff s _).mp hl
+    exact h ia (List.mem_flatMap.mpr ⟨p, hp, hia⟩) hleak
+  · intro h ia hia hleak
+    obtain ⟨p, hp, hpi⟩ := List.mem_flatMap.mp hia
+    exact h p hp ((pkgLeaks_iff s _).mpr ⟨ia, hpi, hleak⟩)
+
+theorem C13_all_ok_no_broken (conv : Conv) (env : Env) (pkgs : Str → Pkg) (s : Schema) (hist : List LoadReq)
+    (h : ∀ o ∈ (runHistoryApp conv env pkgs s hist).1, ∃ r, o = .ok r) : historyBroken conv env pkgs s hist = [] :=
+  historyBroken_of_all_ok conv env pkgs hist s h
+
+/-- **One direction holds for every history**, components that break off included: if no component that a load of the
+    history imported – completely or in part – declares a missing implementer, the schema object is unchanged … -/
+theorem C13_no_leaking_import_keeps_schema (conv : Conv) (env : Env) (pkgs : Str → Pkg) (s : Schema) (hist : List LoadReq)
+    (h : ∀ p ∈ historyImports conv env pkgs s hist ++ historyBroken conv env pkgs s hist, ¬ PkgLeaks s (pkgs p)) :
+    (runHistoryApp conv env pkgs s hist).2 = s := by
+  rw [C13_history_independent_iff_no_leak]
+  intro ia hia hleak
+  obtain ⟨p, hp, url, types, impls, hpk, hi, ht⟩ := historyRegs_source conv env pkgs s hist ia hia
+  apply h p hp
+  rw [hpk]
+  exact ⟨ia, hi, ht, hleak⟩
+
+/-- … and then every load of the history gave what it gives on the fresh schema (history independence for histories WITH
+    `%import`, as long as nothing leaks: components that implement nothing of the application's, or only what is listed) -/
+theorem C13_history_independent_when_nothing_leaks (conv : Conv) (env : Env) (pkgs : Str → Pkg) (s : Schema) :
+    ∀ (hist : List LoadReq), (∀ ia ∈ historyRegs conv env pkgs s hist, ¬ CallLeaks s ia) →
+      runHistoryApp conv env pkgs s hist = (hist.map fun q => load conv env pkgs s q.url q.lines q.specs, s) := by
+  intro hist
+  induction hist with
+  | nil => intro _; rfl
+  | cons q rest ih =>
+    intro h
+    rw [historyRegs_cons] at h
+    have h1 : appAfterLoad conv env pkgs s q = s := by
+      rw [appAfterLoad_eq, withImplementers_eq_self_iff]
+      intro ia hia
+      exact (not_callLeaks_iff s ia).mp (h ia (List.mem_append_left _ hia))
+    rw [h1] at h
+    rw [runHistoryApp_cons, h1, ih (fun ia hia => h ia (List.mem_append_right _ hia))]
+    rfl
+
+/-- **A later load depends on the history through the leaked implementers only.**  The load that comes after any history
+    gives exactly what the same load gives on the FRESH schema with the history's `addsubtype` calls applied
+    (`s.withImplementers …`: same types, same children, same components – only the listed names added to the tables). -/
+theorem C13_later_load_depends_only_on_leak (conv : Conv) (env : Env) (pkgs : Str → Pkg) (s : Schema) (hist : List LoadReq)
+    (url : Option Str) (lines specs : List Str) :
+    load conv env pkgs (runHistoryApp conv env pkgs s hist).2 url lines specs =
+      load conv env pkgs (s.withImplementers (historyRegs conv env pkgs s hist)) url lines specs := by
+  rw [runHistoryApp_schema]
+
+/-- every outcome of a history is the load against the fresh schema with the leak of the loads before it -/
+theorem C13_outcomes_depend_only_on_leak (conv : Conv) (env : Env) (pkgs : Str → Pkg) (s : Schema)
+    (pre : List LoadReq) (q : LoadReq) (post : List LoadReq) :
+    (runHistoryApp conv env pkgs s (pre ++ q :: post)).1[pre.length]? =
+      some (load conv env pkgs (s.withImplementers (historyRegs conv env pkgs s pre)) q.url q.lines q.specs) := by
+  induction pre generalizing s with
+  | nil => rfl
+  | cons q0 rest ih =>
+    rw [List.cons_append, runHistoryApp_cons, historyRegs_cons, withImplementers_append, ← appAfterLoad_eq]
+    simp only [List.length_cons, List.getElem?_cons_succ]
+    exact ih _
+
+/-! ### closed instances for the faithful history function -/
+
+/-- **Counter-fact (known finding C13-implementers-leak), restated for the faithful history.**  One load `%import p`: the
+    application's schema object afterwards lists `leak` among the implementers of `ab`, so it is not the schema it was – and
+    that is ALL: the imported concrete type and the component mark are not in it. -/
+theorem C13_faithful_history_with_import_counterexample :
+    let s' := (runHistoryApp Ex.conv Ex.env Ex.pkgs Ex.schema [HEx.qP]).2
+    Conf.implementers s' "ab".toList = ["leak".toList] ∧ s' ≠ Ex.schema ∧
+      s'.gettype "leak".toList = none ∧ s'.components = [] ∧ s' = HEx.schemaL := by
+  intro s'
+  have hs : s' = HEx.schemaL := by
+    show (runHistoryApp Ex.conv Ex.env Ex.pkgs Ex.schema [HEx.qP]).2 = _
+    rw [runHistoryApp_cons, HEx.appAfterLoad_p]
+    rfl
+  rw [hs]
+  refine ⟨by decide, ?_, by decide, rfl, rfl⟩
+  intro h
+  have : Conf.implementers HEx.schemaL "ab".toList = Conf.implementers Ex.schema "ab".toList := by rw [h]
+  exact absurd this (by decide)
+
+/-- the trace of that history: one call, one component read to its end, nothing broke off – the hypotheses and the
+    right-hand sides of the theorems above, computed -/
+theorem C13_faithful_history_trace :
+    historyRegs Ex.conv Ex.env Ex.pkgs Ex.schema [HEx.qP] = [("leak".toList, "ab".toList)] ∧
+      historyImports Ex.conv Ex.env Ex.pkgs Ex.schema [HEx.qP] = ["p".toList] ∧
+      historyBroken Ex.conv Ex.env Ex.pkgs Ex.schema [HEx.qP] = [] := by
+  unfold historyRegs historyImports historyBroken
+  rw [show HEx.qP = ⟨none, ["%import p".toList], []⟩ from rfl, historyStops_cons, HEx.loadStop_p]
+  exact ⟨rfl, rfl, rfl⟩
+
+/-- `C13_history_independent_iff_no_leak` / `…_iff_no_leaking_import` at work, both sides false: the history `%import p`
+    changes the schema object, its one call leaks, its one component leaks -/
+example : (runHistoryApp Ex.conv Ex.env Ex.pkgs Ex.schema [HEx.qP]).2 ≠ Ex.schema ∧
+    CallLeaks Ex.schema ("leak".toList, "ab".toList) ∧ PkgLeaks Ex.schema (Ex.pkgs "p".toList) := by
+  refine ⟨C13_faithful_history_with_import_counterexample.2.1, ⟨_, _, List.mem_cons_self, by decide⟩, ?_⟩
+  exact ⟨("leak".toList, "ab".toList), List.mem_cons_self, by decide, ⟨_, _, List.mem_cons_self, by decide⟩⟩
+
+/-- … and both sides true: the import-free history `# c` -/
+example : (runHistoryApp Ex.conv Ex.env Ex.pkgs Ex.schema [⟨none, ["# c".toList], []⟩]).2 = Ex.schema := by
+  obtain ⟨r, hr⟩ := Ex.load_comment
+  rw [runHistoryApp_cons, appAfterLoad_ok Ex.conv Ex.env Ex.pkgs Ex.schema ⟨none, ["# c".toList], []⟩ r hr]
+  show appAfter Ex.schema r = Ex.schema
+  have hk : r.schemaAfter = Ex.schema := by
+    refine C13_load_without_import_keeps_schema _ _ _ _ _ _ _ r (fun _ _ h => by cases h) ?_ hr
+    intro l hl a
+    simp only [List.mem_cons, List.mem_nil_iff, or_false] at hl
+    subst hl
+    rw [shape_of_classify "# c".toList (by decide) .skip (by simp) (by decide)]; simp
+  unfold appAfter
+  rw [hk, shareInto_self]
+
+/-- `C13_implementers_only_grow` at work: the new name `leak`, from package `p` which declares `leak implements ab` -/
+example : ∃ add, Conf.implementers (runHistoryApp Ex.conv Ex.env Ex.pkgs Ex.schema [HEx.qP]).2 "ab".toList =
+      Conf.implementers Ex.schema "ab".toList ++ add ∧ add = ["leak".toList] ∧
+      Ex.pkgs "p".toList = .component "u".toList [("leak".toList, .concrete Ex.leak)] [("leak".toList, "ab".toList)] :=
+  ⟨["leak".toList], by rw [C13_faithful_history_with_import_counterexample.1]; rfl, rfl, rfl⟩
+
+/-- **The OLD `runHistory` and the faithful one differ.**  History: `%import p`, then `<leak/>` WITHOUT `%import`.
+    `runHistory` hands the first load's private schema to the second load, which therefore knows the type `leak` and is
+    ACCEPTED; in the faithful history (as in ZConfig) the application's schema object does not have that type and the second
+    load is REJECTED at line 1 – although `leak` now stands in the implementer table of `ab`. -/
+theorem C13_old_history_differs_from_faithful :
+    (∃ r1 r2, (runHistory Ex.conv Ex.env Ex.pkgs Ex.schema [HEx.qP, HEx.qUse]).1 = [.ok r1, .ok r2]) ∧
+    (∃ r1, (runHistoryApp Ex.conv Ex.env Ex.pkgs Ex.schema [HEx.qP, HEx.qUse]).1 =
+      [.ok r1, .error (synErr none 1 "start:unknown type name")]) := by
+  obtain ⟨r1, hr1, hs1⟩ := Ex.load_import_p
+  obtain ⟨r2, hr2⟩ := HEx.load_old_use
+  constructor
+  · refine ⟨r1, r2, ?_⟩
+    rw [runHistory_cons, runHistory_cons]
+    simp only [HEx.qP, HEx.qUse, hr1, hs1, hr2]
+    rfl
+  · refine ⟨r1, ?_⟩
+    rw [runHistoryApp_cons, runHistoryApp_cons, HEx.appAfterLoad_p]
+    simp only [HEx.qP, HEx.qUse, hr1, HEx.load_app_use]
+    rfl
+
+/-- **A component that breaks off leaks what it registered before** (the load FAILS and still alters the schema object):
+    package `b` defines `x implements ab` and then a type named `ab`, which the schema has.  The load `%import b` is
+    rejected ("type name cannot be redefined"), and the application's schema object lists `x` under `ab` afterwards. -/
+theorem C13_failed_load_leaks :
+    load Ex.conv Ex.env HEx.pkgsH Ex.schema none ["%import b".toList] [] =
+        .error (.cfg { kind := .schema, tag := "type name cannot be redefined" }) ∧
+      (runHistoryApp Ex.conv Ex.env HEx.pkgsH Ex.schema [HEx.qB]).2 = HEx.schemaX ∧
+      Conf.implementers HEx.schemaX "ab".toList = ["x".toList] ∧
+      historyBroken Ex.conv Ex.env HEx.pkgsH Ex.schema [HEx.qB] = ["b".toList] := by
+  refine ⟨HEx.load_fail "b" HEx.shape_b (by decide) (by decide) _ HEx.lsImport_b, ?_, by decide, ?_⟩
+  · rw [runHistoryApp_cons, HEx.appAfterLoad_b]; rfl
+  · unfold historyBroken
+    rw [show HEx.qB = ⟨none, ["%import b".toList], []⟩ from rfl, historyStops_cons, HEx.loadStop_b, HEx.importStop_b]
+    rfl
+
+/-- **Why the component-level "iff" needs "no component broke off"** (`C13_history_independent_iff_no_leaking_import`
+    is PARTIAL in that sense; the call-level `C13_history_independent_iff_no_leak` is not): package `c` declares the missing
+    implementer `x` of `ab` – it "leaks" by its declaration – but it breaks off at its first type, before `x` is reached:
+    the history `%import c` imported (a part of) a leaking component and leaves the schema object unchanged. -/
+theorem C13_history_independent_iff_no_leaking_import_partial_counterexample :
+    PkgLeaks Ex.schema (HEx.pkgsH "c".toList) ∧ historyBroken Ex.conv Ex.env HEx.pkgsH Ex.schema [HEx.qC] = ["c".toList] ∧
+      historyImports Ex.conv Ex.env HEx.pkgsH Ex.schema [HEx.qC] = [] ∧
+      (runHistoryApp Ex.conv Ex.env HEx.pkgsH Ex.schema [HEx.qC]).2 = Ex.schema := by
+  refine ⟨⟨("x".toList, "ab".toList), List.mem_cons_self, by decide, ⟨_, _, List.mem_cons_self, by decide⟩⟩, ?_, ?_, ?_⟩
+  · unfold historyBroken
+    rw [show HEx.qC = ⟨none, ["%import c".toList], []⟩ from rfl, historyStops_cons, HEx.loadStop_c, HEx.importStop_c]
+    rfl
+  · unfold historyImports
+    rw [show HEx.qC = ⟨none, ["%import c".toList], []⟩ from rfl, historyStops_cons, HEx.loadStop_c, HEx.importStop_c]
+    rfl
+  · rw [runHistoryApp_cons, HEx.appAfterLoad_c]; rfl
+
+/-- `C13_later_load_depends_only_on_leak` at work: after `%import p` the load `<leak/>` is the load against the fresh
+    schema with `leak` added to `ab`'s table – rejected, the type itself is not there -/
+example : load Ex.conv Ex.env Ex.pkgs (runHistoryApp Ex.conv Ex.env Ex.pkgs Ex.schema [HEx.qP]).2 none ["<leak/>".toList] [] =
+    .error (synErr none 1 "start:unknown type name") := by
+  rw [C13_later_load_depends_only_on_leak, C13_faithful_history_trace.1]
+  exact HEx.load_app_use
 
 end ZCV.Props.C13
